@@ -84,6 +84,12 @@ Proof.
     repeat constructor; cbn; intuition discriminate.
 Qed.
 
+(* the property setter cache.archive = a *)
+Theorem C08_set_archive : forall c a,
+  mem (c_set_archive c a) = mem c /\ arch (c_set_archive c a) = a /\
+  swp (c_set_archive c a) = (if is_null (swp c) then swp c else arch c).
+Proof. exact set_archive_law. Qed.
+
 Print Assumptions C08_dict_ops_never_touch_archive.
 Print Assumptions C08_dump_all.
 Print Assumptions C08_dump_keys.
@@ -96,3 +102,4 @@ Print Assumptions C08_parked_untouched_then_restored.
 Print Assumptions C08_null_stays_empty.
 Print Assumptions C08_never_two_archives.
 Print Assumptions C08_wellformed_forever.
+Print Assumptions C08_set_archive.
